@@ -1,5 +1,5 @@
 """Shared configuration of the crdt engine (C01, C02, C03, C04)."""
-RULE = ("directed histories (diamond, heads at different heights, null/value ties in both directions, tie on a deleted "
+RULE = ("a probe of a collection with 25 fields (field identifiers of one and two digits: parents of a field's commits are commits of that field, heights follow them), then directed histories (diamond, heads at different heights, null/value ties in both directions, tie on a deleted "
         "document, shared register block, delete concurrent with update + redelivery of ancestors, merge commit delivered with one parent missing, "
         "branchable doc/collection commit orders) then PRNG-generated histories over 2-4 replicas: creates (incl. the same document on two nodes), "
         "register writes from small value pools (ties frequent), increments/decrements, deletes, deliveries of arbitrary "
